@@ -20,3 +20,4 @@ import SkyllhModel.Props.C20
 import SkyllhModel.Props.C11
 import SkyllhModel.Props.C16
 import SkyllhModel.Props.C07
+import SkyllhModel.Props.C18
